@@ -1062,6 +1062,18 @@ def check_sentinels(ctx):
             for lab in ('T', 'F'):
                 for (op, a, b) in F.cond_facts(n.ast, lab == 'T'):
                     ka = a if b == 'n:0' else b if a == 'n:0' else None
+                    if ka is not None and not ka.endswith('.unix_time'):
+                        # a const local standing for the instant of the first / last entry
+                        rk_ = F.resolve_key(ka)
+                        m_ = re.match(r'^(\w+)#(0x[0-9a-f]+)$', ka)
+                        if rk_ == ka and m_:
+                            d_ = u.by_id.get(m_.group(2))
+                            if d_ is not None and d_.get('kind') == 'VarDecl' and kids(d_) and 'const' in (qtype(d_) or '') and \
+                                    '&' not in (qtype(d_) or ''):
+                                rk_ = Keys(u).key(kids(d_)[-1])
+                        if rk_.endswith('.unix_time'):
+                            ka_orig, ka = ka, rk_
+                            a, b = (ka, b) if a == ka_orig else (a, ka)
                     if ka is None or not ka.endswith('.unix_time'):
                         continue
                     which = 'front' if ('.front()' in ka or '[n:0]' in ka) else 'back' if ('.back()' in ka or 'size() - n:1' in ka) else None
